@@ -230,6 +230,9 @@ def build_request(h, target, tb, r, nports_of):
             kw["l"] = req["l"] * h.prefix.µ
         if "mult" in fields and req.get("mult") is not None:
             kw["mult"] = str(req["mult"]) if kind == "cap" else req["mult"]
+        if kind in ("res", "cap"):
+            # what was actually asked for (fields the primitive has), for the given-values check
+            expect["given"] = {f: (req.get(f) if f in kw else None) for f in ("w", "l", "mult")}
         return prim(**kw), expect
     if kind == "ideal":
         return h.R(r=1000), {"kind": "untouched"}
@@ -498,7 +501,7 @@ def check_compile(h, scn, mods, expects, before, after, pdkname, repeat, fail, p
                 return
             # sizes: given values are used
             given = exp.get("given", {})
-            if exp["kind"] == "mos" and given:
+            if exp["kind"] in ("mos", "res", "cap") and given:
                 _check_sizes(h, new_of, given, mid, iname, fail, probe)
             _check_defaults(h, pdkname, new_of, exp, mid, iname, fail, probe)
             # equal primitive parameters -> the same device call
@@ -518,7 +521,7 @@ def _check_sizes(h, call, given, mid, iname, fail, probe):
     """Sizes and multipliers given on the generic primitive reach the device."""
     p = call.params
     get = (lambda n: p.get(n)) if isinstance(p, dict) else (lambda n: getattr(p, n, None))
-    for field, names, scale in (("w", ("w",), True), ("l", ("l",), True), ("nf", ("nf",), False), ("mult", ("mult", "m"), False)):
+    for field, names, scale in (("w", ("w", "r_width", "c_width"), True), ("l", ("l", "r_length", "c_length"), True), ("nf", ("nf",), False), ("mult", ("mult", "m", "mf", "vm"), False)):
         want = given.get(field)
         if want is None:
             continue
